@@ -266,9 +266,38 @@ def perft_trees(chk, pid, wvbin, wd, quick):
     chk.coverage["traces_validated_against_impl"] = chk.coverage.get("traces_validated_against_impl", 0) + len(jobs)
 
 
+def perft_cli(chk, pid, wd, quick):
+    """The `weechess perft` command (depth 2) on the corpus: per-move lines and total against the specification."""
+    import re
+    import uci_driver
+    cli = build_cli()
+    fens = [l.strip() for l in open(CORPUS_FEN) if l.strip() and not l.startswith("#")]
+    path = os.path.join(wd, "perftcli.ndjson")
+    n = 0
+    with open(path, "w") as f:
+        for fen in fens[: (12 if quick else len(fens))]:
+            r = run([cli, "perft", "--fen", fen, "--depth", "2"], timeout=120)
+            lines = []
+            total = -1
+            for l in r.stdout.splitlines():
+                m = re.match(r"^(\S+): (\d+) \[(.*)\]$", l.strip())
+                if m:
+                    lines.append({"peg": list(m.group(1)), "count": int(m.group(2)), "fen": list(m.group(3))})
+                m = re.match(r"^Total nodes: (\d+)", l.strip())
+                if m:
+                    total = int(m.group(1))
+            f.write(json.dumps({"ev": "PerftCli", "pos": uci_driver.fen_to_pos(fen), "depth": 2, "lines": lines, "total": total, "status": r.returncode}) + "\n")
+            n += 1
+    res = tlc_many([dict(module="ChessTrace", trace=p2, xmx="3g") for p2 in shard(path, NPROC)])
+    chk.add_tlc(res)
+    fold_diags(chk, res, pid)
+    chk.coverage["perft_cli_positions"] = n
+
+
 def extra_rules(chk, pid, wvbin, wd, quick):
     if pid == "C01":
         perft_trees(chk, pid, wvbin, wd, quick)
+        perft_cli(chk, pid, wd, quick)
     tot = family_replay(chk, wvbin, wd, pid, family_plan(pid, quick, chk.seed))
     chk.coverage["evaluations"] = chk.coverage.get("evaluations", 0) + tot.get("positions", 0)
     chk.coverage["distinct_nontrivial"] = chk.coverage.get("distinct_nontrivial", 0) + tot.get("checks", 0)
